@@ -276,7 +276,7 @@ def r3b_string_text_untouched(run, F):
     sarm = hirq.arm_for(m, "Expression::StringLiteral")
     run.require(len(sarm) == 1, "StringLiteral arm of Expression::rebuild not found")
     preserving = ("Iterator::collect", "Iterator::flat_map", "Iterator::map", "Iterator::flatten", "slice::iter", "IntoIterator::into_iter", "ascii::escape_default",
-                  "ToString>::to_string", "String::from_utf8_lossy", "String::from_utf8", "Cow<'_, B>::into_owned", "borrow::ToOwned>::to_owned", "Result::unwrap", "Result::expect",
+                  "ToString>::to_string", "String::from_utf8_lossy", "String::from_utf8", "Cow<'_, B>::into_owned", "borrow::Cow::into_owned", "Cow::to_string", "borrow::ToOwned>::to_owned", "Result::unwrap", "Result::expect",
                   "v1::Ok", "hint::must_use", "fmt::format", "Argument::new_display", "Arguments::new", "Arguments::new_v1", "String::from", "From>::from", "Into<U>>::into",
                   "String::as_str", "Deref>::deref", "String::push", "String::push_str", "String::new", "String::with_capacity", "Extend<char>>::extend", "char::from")
     other = []
